@@ -771,7 +771,7 @@ func parseBinOps(expr string, n *promParser.BinaryExpr) (src []Source) {
 			orig := copyLabels(s)
 			if n.VectorMatching.On {
 				s.FixedLabels = true
-				s = includeLabel(s, n.VectorMatching.MatchingLabels...)
+				s = includeLabel(s, possibleLabels(orig, n.VectorMatching.MatchingLabels)...)
 				s = restrictIncludedLabels(s, n.VectorMatching.MatchingLabels)
 				s = restrictGuaranteedLabels(s, n.VectorMatching.MatchingLabels)
 				s = excludeAllLabels(
@@ -833,7 +833,7 @@ func parseBinOps(expr string, n *promParser.BinaryExpr) (src []Source) {
 			// foo * on(instance) group_left(a,b) bar{x="y"}
 			// then only group_left() labels will be included.
 			if n.VectorMatching.On {
-				s = includeLabel(s, n.VectorMatching.MatchingLabels...)
+				s = includeLabel(s, possibleLabels(orig, n.VectorMatching.MatchingLabels)...)
 			}
 			if s.Operation == "" {
 				s.Operation = n.VectorMatching.Card.String()
@@ -860,7 +860,7 @@ func parseBinOps(expr string, n *promParser.BinaryExpr) (src []Source) {
 			orig := copyLabels(s)
 			s = includeLabel(s, n.VectorMatching.Include...)
 			if n.VectorMatching.On {
-				s = includeLabel(s, n.VectorMatching.MatchingLabels...)
+				s = includeLabel(s, possibleLabels(orig, n.VectorMatching.MatchingLabels)...)
 			}
 			if s.Operation == "" {
 				s.Operation = n.VectorMatching.Card.String()
@@ -889,7 +889,7 @@ func parseBinOps(expr string, n *promParser.BinaryExpr) (src []Source) {
 			var rhsConditional bool
 			orig := copyLabels(s)
 			if n.VectorMatching.On {
-				s = includeLabel(s, n.VectorMatching.MatchingLabels...)
+				s = includeLabel(s, possibleLabels(orig, n.VectorMatching.MatchingLabels)...)
 			}
 			if s.Operation == "" {
 				s.Operation = n.VectorMatching.Card.String()
@@ -960,6 +960,17 @@ func checkConditions(s Source, op promParser.ItemType, isBool bool) (isCondition
 		isConditional = op.IsComparisonOperator()
 	}
 	return isConditional, isReturnBool
+}
+
+// possibleLabels returns these names that can be present on s.
+func possibleLabels(s Source, names []string) []string {
+	possible := make([]string, 0, len(names))
+	for _, name := range names {
+		if s.CanHaveLabel(name) {
+			possible = append(possible, name)
+		}
+	}
+	return possible
 }
 
 // copyLabels returns a copy of s that doesn't share label slices with it,
